@@ -5,6 +5,7 @@ CONSTANTS
   MaxGen = 3
   MaxTokens = 2
   Depth = 4
+  WithRebase = TRUE
 INVARIANTS TypeOK FreshKeys AcceptedMeansLive Emit
 ACTION_CONSTRAINT Effective
 CHECK_DEADLOCK FALSE
